@@ -639,13 +639,62 @@ def query_coherence(rep, idx, rule="C02.10", only=None):
                         rep.ok(rule, f.site, f"{cname}.{name}() only sets the frozen flag", "monotone flag (C02.2)", nontrivial=False)
                         continue
                     missing = sorted(m for m in mutators if not any(attr in mw for _, mw in summ[m]))
-                    if missing:
+                    if missing and cname == "MemoryMap" and _filled_only_when_frozen(f, attr):
+                        rep.ok(rule, f.site, f"{cname}.{name}() keeps state in self.{attr}",
+                               "the memo is only ever filled under a test of the frozen flag: a frozen map (and every window below it, "
+                               "frozen when it was added) refuses all further additions (C02.2), so nothing can invalidate it", nontrivial=False)
+                    elif missing:
                         rep.bad(rule, f.site, f"{cname}.{name}() keeps state in self.{attr}",
                                 f"{', '.join(m + '()' for m in missing)} change(s) the map without touching self.{attr}: what {name}() "
                                 "reports after a later add is what it computed before it")
                     else:
                         rep.unk(rule, f.site, f"{cname}.{name}() keeps state in self.{attr}",
                                 "every mutator writes it too; whether that write invalidates the memo is not decided")
+
+
+def _filled_only_when_frozen(f, attr):
+    """Every store of a value other than None to self.<attr> in f sits under an `if` whose test is the frozen flag (self._frozen,
+    self.frozen, or a local bound to one of them and not rebound)."""
+    parents = {}
+    for n in ast.walk(f.node):
+        for ch in ast.iter_child_nodes(n):
+            parents[ch] = n
+    flags = {}
+    for n in ast.walk(f.node):
+        if isinstance(n, ast.Assign) and len(n.targets) == 1:
+            t, v = n.targets[0], n.value
+            pairs = list(zip(t.elts, v.elts)) if isinstance(t, ast.Tuple) and isinstance(v, ast.Tuple) and len(t.elts) == len(v.elts) else [(t, v)]
+            for t_, v_ in pairs:
+                if isinstance(t_, ast.Name):
+                    flags.setdefault(t_.id, []).append(v_)
+
+    def is_flag(e):
+        if isinstance(e, ast.Attribute) and isinstance(e.value, ast.Name) and e.value.id == "self" and e.attr in ("_frozen", "frozen"):
+            return True
+        return isinstance(e, ast.Name) and len(flags.get(e.id, ())) == 1 and is_flag(flags[e.id][0])
+    stores = [n for n in ast.walk(f.node) if isinstance(n, (ast.Assign, ast.AugAssign, ast.AnnAssign)) and
+              any(isinstance(t, ast.Attribute) and isinstance(t.value, ast.Name) and t.value.id == "self" and t.attr == attr
+                  for t in (n.targets if isinstance(n, ast.Assign) else [n.target]))]
+    mut_calls = [n for n in ast.walk(f.node) if isinstance(n, ast.Call) and isinstance(n.func, ast.Attribute) and
+                 isinstance(n.func.value, ast.Attribute) and isinstance(n.func.value.value, ast.Name) and n.func.value.value.id == "self" and
+                 n.func.value.attr == attr and n.func.attr in ("append", "add", "update", "extend", "setdefault", "insert")]
+    subs = [n for n in ast.walk(f.node) if isinstance(n, ast.Assign) and any(
+        isinstance(t, ast.Subscript) and isinstance(t.value, ast.Attribute) and isinstance(t.value.value, ast.Name) and
+        t.value.value.id == "self" and t.value.attr == attr for t in n.targets)]
+    fills = [n for n in stores if not (isinstance(n, ast.Assign) and isinstance(n.value, ast.Constant) and n.value.value is None)] + mut_calls + subs
+    if not fills:
+        return False
+    for n in fills:
+        x, guarded = n, False
+        while x in parents:
+            p_ = parents[x]
+            if isinstance(p_, ast.If) and x in p_.body and is_flag(p_.test):
+                guarded = True
+                break
+            x = p_
+        if not guarded:
+            return False
+    return True
 
 
 def sign_refusals(rep, idx, rule):
